@@ -4,6 +4,8 @@ spellings the source uses).
 * ``"{:3} {: 20.12f}".format(a, b)``  ->  ``f"{a:3} {b: 20.12f}"`` — a constant template with auto-numbered or indexed
   positional fields and no keyword / starred arguments is the same formatting as the f-string; the layout rules
   (sa/layout.py) read f-strings.  Templates with named fields, nested specs or non-constant templates are left alone.
+* ``format(x, "20d")`` -> ``f"{x:20d}"``; ``repr(e).rjust(20)`` / ``str(e).ljust(8)`` / ``.center(n)`` with a constant width and the default
+  fill -> ``f"{e!r:>20}"`` / ``f"{e!s:<8}"`` / ``f"{e!s:^n}"`` (the builtin spellings of the same padding).
 Node positions are kept (the new node takes the place of the call).
 """
 import ast
@@ -41,6 +43,31 @@ class FormatToFString(ast.NodeTransformer):
         return new
 
 
+class BuiltinFormat(ast.NodeTransformer):
+    _ALIGN = {"rjust": ">", "ljust": "<", "center": "^"}
+
+    def visit_Call(self, node):
+        self.generic_visit(node)
+        f = node.func
+        new = None
+        if isinstance(f, ast.Name) and f.id == "format" and len(node.args) == 2 and not node.keywords \
+                and isinstance(node.args[1], ast.Constant) and isinstance(node.args[1].value, str) and "{" not in node.args[1].value:
+            spec = node.args[1].value
+            new = ast.JoinedStr([ast.FormattedValue(node.args[0], -1, ast.JoinedStr([ast.Constant(spec)]) if spec else None)])
+        elif isinstance(f, ast.Attribute) and f.attr in self._ALIGN and len(node.args) == 1 and not node.keywords \
+                and isinstance(node.args[0], ast.Constant) and type(node.args[0].value) is int and node.args[0].value >= 0 \
+                and isinstance(f.value, ast.Call) and isinstance(f.value.func, ast.Name) and f.value.func.id in ("repr", "str") \
+                and len(f.value.args) == 1 and not f.value.keywords:
+            conv = 114 if f.value.func.id == "repr" else 115
+            new = ast.JoinedStr([ast.FormattedValue(f.value.args[0], conv,
+                                                    ast.JoinedStr([ast.Constant(f"{self._ALIGN[f.attr]}{node.args[0].value}")]))])
+        if new is None:
+            return node
+        ast.copy_location(new, node)
+        ast.fix_missing_locations(new)
+        return new
+
+
 class _BoundFormat(ast.NodeTransformer):
     """fmt = "{:12.8f} {:12.8f}".format ; fmt(x, y)   ->   "{:12.8f} {:12.8f}".format(x, y)   (aliases bound once in a function)."""
     def visit_FunctionDef(self, node):
@@ -68,4 +95,5 @@ class _BoundFormat(ast.NodeTransformer):
 
 def normalise(tree):
     tree = _BoundFormat().visit(tree)
-    return FormatToFString().visit(tree)
+    tree = FormatToFString().visit(tree)
+    return BuiltinFormat().visit(tree)
